@@ -1,5 +1,5 @@
 (* C03: hyperparameter validation and read-back of RadialCovariance and MultitaskTensorCovariance. No proofs here. *)
-From Coq Require Import List QArith Bool.
+From Coq Require Import List QArith Bool Arith.
 Import ListNotations.
 Open Scope Q_scope.
 
@@ -9,14 +9,20 @@ Inductive xreal := Fin (q : Q) | PInf | NInf | NaN.
 Definition entry_ok (h : xreal) : bool := match h with Fin q => negb (Qle_bool q 0) | _ => false end.
 Definition valid (hp : list xreal) : bool := forallb entry_ok hp.
 
-Record radial := { r_alpha : xreal; r_ls : list xreal }.
-(* set_hyperparameters: None = HyperparameterInvalidError *)
+(* The state of a RadialCovariance object, field by field: the getter reads _hyperparameters, the kernel computes with
+   process_variance and _length_scales (three assignments of set_hyperparameters) *)
+Record radial := { r_hp : list xreal;      (* _hyperparameters : what `hyperparameters` reads back *)
+                   r_alpha : xreal;        (* process_variance : what covariance / build_kernel_matrix multiply with *)
+                   r_ls : list xreal }.    (* _length_scales   : what the distances are scaled by *)
+(* set_hyperparameters on a new object (the constructor): None = HyperparameterInvalidError
+     self._hyperparameters = self.check_hyperparameters_are_valid(hyperparameters)      <- raises before anything is assigned
+     self.process_variance = self._hyperparameters[0];  self._length_scales = numpy.copy(self._hyperparameters[1:]) *)
 Definition radial_set (hp : list xreal) : option radial :=
   match hp with
-  | a :: ls => if valid hp then Some {| r_alpha := a; r_ls := ls |} else None
-  | [] => Some {| r_alpha := NaN; r_ls := [] |}   (* excluded by the callers: hyperparameters are non-empty *)
+  | a :: ls => if valid hp then Some {| r_hp := hp; r_alpha := a; r_ls := ls |} else None
+  | [] => Some {| r_hp := []; r_alpha := NaN; r_ls := [] |}   (* excluded by the callers: hyperparameters are non-empty *)
   end.
-Definition radial_get (k : radial) : list xreal := r_alpha k :: r_ls k.
+Definition radial_get (k : radial) : list xreal := r_hp k.
 
 (* MultitaskTensorCovariance: [alpha, l_1..l_d, l_task]; physical = [1, l_1..l_d], task = [1, l_task];
    alpha is validated by the tensor kernel itself, the length scales by the component kernels *)
@@ -35,8 +41,9 @@ Definition multitask_set (hp : list xreal) : option multitask :=
       else None
   | [] => None
   end.
+(* get_hyperparameters: [process_variance] ++ physical_covariance.hyperparameters[1:] ++ [task_covariance.hyperparameters[-1]] *)
 Definition multitask_get (k : multitask) : list xreal :=
-  m_alpha k :: r_ls (m_phys k) ++ [last (radial_get (m_task k)) NaN].
+  m_alpha k :: tl (radial_get (m_phys k)) ++ [last (radial_get (m_task k)) NaN].
 
 Definition xeqb (a b : xreal) : bool :=
   match a, b with
@@ -45,10 +52,112 @@ Definition xeqb (a b : xreal) : bool :=
 Fixpoint xlist_eqb (a b : list xreal) : bool :=
   match a, b with [], [] => true | x :: a', y :: b' => xeqb x y && xlist_eqb a' b' | _, _ => false end.
 
+(* ---------------------------------------------------------------------------------------------------------------------------
+   LIVE OBJECTS: `k.hyperparameters = hp` on an object that already exists.  The statement is the same code as above; what differs is
+   that a raise leaves the OLD object behind, with whatever had been assigned before the raise.
+   Result: the object afterwards, and whether the assignment returned normally (false = HyperparameterInvalidError). *)
+Definition radial_assign (k : radial) (hp : list xreal) : radial * bool :=
+  match radial_set hp with
+  | Some k' => (k', true)
+  | None => (k, false)             (* check_hyperparameters_are_valid raised: no field was assigned *)
+  end.
+
+(* MultitaskTensorCovariance.set_hyperparameters, statement by statement:
+     if not (isfinite(hp[0]) and hp[0] > 0): raise                         -> nothing assigned
+     self.process_variance = hp[0]                                         -> ASSIGNED before the component kernels are built
+     self.physical_covariance = physical_covariance_class([1, l_1..l_d])   -> may raise: process variance already taken
+     self.task_covariance = task_covariance_class([1, l_task])             -> may raise: process variance and physical kernel already taken *)
+Definition multitask_assign (k : multitask) (hp : list xreal) : multitask * bool :=
+  match hp with
+  | a :: rest =>
+      if entry_ok a then
+        match radial_set (one :: removelast rest) with
+        | None => ({| m_alpha := a; m_phys := m_phys k; m_task := m_task k |}, false)
+        | Some p =>
+            match radial_set [one; last rest NaN] with
+            | None => ({| m_alpha := a; m_phys := p; m_task := m_task k |}, false)
+            | Some t => ({| m_alpha := a; m_phys := p; m_task := t |}, true)
+            end
+        end
+      else (k, false)
+  | [] => (k, false)
+  end.
+
+(* what can be seen of a live kernel object *)
+Inductive hop :=
+| HSet (hp : list xreal)      (* k.hyperparameters = hp, HyperparameterInvalidError caught *)
+| HGet                        (* k.hyperparameters *)
+| HProbe.                     (* use the kernel: k(x, x), and all entry points against a kernel freshly built from what is read back *)
+Inductive hout :=
+| OSet (accepted : bool)
+| OGet (hp : list xreal)
+| OProbe (kxx : xreal) (coherent : bool).
+
+(* a radial kernel computes as the kernel of the hyperparameters it reads back, and these are admissible *)
+Definition radial_coherent (k : radial) : bool :=
+  xlist_eqb (radial_get k) (r_alpha k :: r_ls k) && valid (radial_get k).
+Definition multitask_coherent (k : multitask) : bool :=
+  entry_ok (m_alpha k) && radial_coherent (m_phys k) && radial_coherent (m_task k)
+  && xeqb (r_alpha (m_phys k)) one && xeqb (r_alpha (m_task k)) one && (length (r_ls (m_task k)) =? 1)%nat.
+
+Definition radial_step (k : radial) (o : hop) : radial * hout :=
+  match o with
+  | HSet hp => let '(k', ok) := radial_assign k hp in (k', OSet ok)
+  | HGet => (k, OGet (radial_get k))
+  | HProbe => (k, OProbe (r_alpha k) (radial_coherent k))       (* k(x,x) = process_variance * phi(0) = process_variance *)
+  end.
+Definition multitask_step (k : multitask) (o : hop) : multitask * hout :=
+  match o with
+  | HSet hp => let '(k', ok) := multitask_assign k hp in (k', OSet ok)
+  | HGet => (k, OGet (multitask_get k))
+  | HProbe => (k, OProbe (m_alpha k) (multitask_coherent k))    (* the component kernels carry process variance 1 *)
+  end.
+
+Fixpoint run {S} (step : S -> hop -> S * hout) (k : S) (ops : list hop) : S * list hout :=
+  match ops with
+  | [] => (k, [])
+  | o :: r => let '(k1, out) := step k o in let '(k2, outs) := run step k1 r in (k2, out :: outs)
+  end.
+
+(* the last vector a sequence of assignments ACCEPTED (hp0: what the object was constructed with) *)
+Fixpoint last_accepted (hp0 : list xreal) (ops : list hop) : list xreal :=
+  match ops with
+  | [] => hp0
+  | HSet hp :: r => last_accepted (if valid hp then hp else hp0) r
+  | _ :: r => last_accepted hp0 r
+  end.
+
+Definition hout_eqb (a b : hout) : bool :=
+  match a, b with
+  | OSet x, OSet y => Bool.eqb x y
+  | OGet x, OGet y => xlist_eqb x y
+  | OProbe x c, OProbe y d => xeqb x y && Bool.eqb c d
+  | _, _ => false
+  end.
+Fixpoint houts_eqb (a b : list hout) : bool :=
+  match a, b with [], [] => true | x :: a', y :: b' => hout_eqb x y && houts_eqb a' b' | _, _ => false end.
+
+(* the specification evaluated on the implementation's OWN outputs (no model involved): every probe is coherent; a read-back after an
+   accepted assignment is the vector assigned; for a radial kernel a read-back after a rejected assignment is the previous read-back *)
+Fixpoint spec_outs (strict : bool) (cur : list xreal) (ops : list hop) (outs : list hout) : bool :=
+  match ops, outs with
+  | [], [] => true
+  | HSet hp :: r, OSet ok :: s =>
+      Bool.eqb ok (valid hp) && spec_outs strict (if ok then hp else if strict then cur else []) r s
+  | HGet :: r, OGet v :: s =>
+      valid v && (match cur with [] => true | _ => xlist_eqb v cur end) && spec_outs strict v r s
+  | HProbe :: r, OProbe kxx coh :: s =>
+      coh && (match cur with a :: _ => xeqb kxx a | [] => true end) && spec_outs strict cur r s
+  | _, _ => false
+  end.
+
 (* correspondence cases *)
 Inductive case :=
 | CRadial (hp : list xreal) (accepted : bool) (readback : list xreal)
-| CMulti (hp : list xreal) (accepted : bool) (readback : list xreal).
+| CMulti (hp : list xreal) (accepted : bool) (readback : list xreal)
+(* a live object: constructed with hp0 (admissible), then the operations ops; outs = what the implementation showed *)
+| CLiveRadial (hp0 : list xreal) (ops : list hop) (outs : list hout)
+| CLiveMulti (hp0 : list xreal) (ops : list hop) (outs : list hout).
 Definition check (c : case) : bool :=
   match c with
   | CRadial hp acc rb =>
@@ -60,5 +169,15 @@ Definition check (c : case) : bool :=
       match multitask_set hp with
       | Some k => acc && xlist_eqb (multitask_get k) rb && xlist_eqb rb hp
       | None => negb acc
+      end
+  | CLiveRadial hp0 ops outs =>
+      match radial_set hp0 with
+      | Some k => houts_eqb (snd (run radial_step k ops)) outs && spec_outs true hp0 ops outs
+      | None => false
+      end
+  | CLiveMulti hp0 ops outs =>
+      match multitask_set hp0 with
+      | Some k => houts_eqb (snd (run multitask_step k ops)) outs && spec_outs false hp0 ops outs
+      | None => false
       end
   end.
